@@ -6,6 +6,7 @@ as rxsci operators for a MuxObservable, as rxsci operators for a plain Observabl
 the library dispatches), and as a term of the reference model (model.py).
 """
 import copy
+import functools
 import math
 import zlib
 from array import array
@@ -29,6 +30,9 @@ NT = _namedtuple('NT', ['a', 'b'])
 
 
 import numpy as _np                                                   # noqa: E402
+
+
+_THE_NAN = float('nan')
 
 
 class Boom(Exception):
@@ -157,6 +161,10 @@ _FUNCS = {
     'acc_box_mut': lambda: _box_mut,
     'acc_tbox_mut': lambda: _tbox_mut,
     'acc_digest': lambda: (lambda a, i: (a * 7 + digest(i)) % 1009),
+    # a state that compares element-wise: `state == marker` is an array, `bool(array)` raises for more than one element
+    'acc_npvec': lambda: (lambda a, i: a + _np.array([i, 1], dtype='int64')),
+    # an append on a list produced by a factory that is not a plain function (functools.partial / callable object / lru_cache)
+    'acc_append_any': lambda: (lambda a, i: a + [digest(i)]),
     # terminators (must return the seed's type)
     'term_neg': lambda: (lambda a: -a),
     'term_addk': lambda k: (lambda a: a + k),
@@ -183,6 +191,9 @@ _FUNCS = {
     'divcent': lambda k: (lambda i: (i // k) - 2),
     'divbool': lambda k: (lambda i: (i // k) % 2 == 0),
     'divnone': lambda k: (lambda i: None if (i // k) % 2 else (i // k)),
+    # a value that is != to ITSELF, and the same object every time (a module-level NaN standing for a missing label):
+    # by != every such item is a run of its own; identity says nothing about equality
+    'divnan': lambda k: (lambda i: _THE_NAN if (i // k) % 3 == 1 else (i // k)),
     # different keys whose hashes collide: hash(-1) == hash(-2); ints congruent mod 2**61-1 share a hash
     'kneg': lambda k: (lambda i: -1 - (i % k)),
     'kmers': lambda k: (lambda i: (i % k) * (2 ** 61 - 1)),
@@ -202,7 +213,25 @@ _SEEDS = {
     'arr_factory': lambda: (lambda: array('q')), 'one': lambda: 1,
     'box': lambda: Box(), 'tbox': lambda: (Box(), 0),      # hashable but mutable user objects
     'nested': lambda: ([], 0),          # an immutable container holding a mutable one: needs a DEEP copy per key
+    'npvec': lambda: _np.zeros(2, dtype='int64'),
+    # seed FACTORIES that are callable without being functions or classes
+    'list_partial': lambda: functools.partial(list, ()),
+    'list_callable_object': lambda: _ListFactory(),
+    'list_lru': lambda: _lru_list,
 }
+
+
+class _ListFactory:
+    def __call__(self):
+        return []
+
+
+def _fresh_list():
+    return []
+
+
+# (the cached list is handed to every key, which is harmless here: acc_append_any never mutates its accumulator)
+_lru_list = functools.lru_cache(maxsize=None)(_fresh_list)
 
 
 def fn(name, env=None):
@@ -340,7 +369,8 @@ FUNC_SIG = {
     'isnone': ('o', 'i'), 'digest': ('*', 'i'), 'raise_on': ('*', None),
 }
 SEED_TYPE = {'zero': 'i', 'zerof': 'f', 'list': 'x', 'list_factory': 'x', 'dict_factory': 'x', 'pair00': 't',
-             'neg1': 'i', 'arr_factory': 'x', 'one': 'i', 'nested': 'x', 'box': 'x', 'tbox': 'x'}
+             'neg1': 'i', 'arr_factory': 'x', 'one': 'i', 'nested': 'x', 'box': 'x', 'tbox': 'x', 'npvec': 'x',
+             'list_partial': 'x', 'list_callable_object': 'x', 'list_lru': 'x'}
 
 
 def out_type(node, t):
@@ -361,12 +391,12 @@ def out_type(node, t):
     return o
 
 
-INT_FUNCS = {'sub', 'tonp', 'knp', 'modnp', 'divnp', 'divnpf', 'npgt', 'kcent', 'divcent', 'divbool', 'divnone', 'add', 'mul', 'mod', 'div', 'neg', 'pair', 'pairmod', 'rep', 'upto', 'opt', 'half', 'tofloat', 'nt', 'even', 'odd',
+INT_FUNCS = {'sub', 'tonp', 'knp', 'modnp', 'divnp', 'divnpf', 'npgt', 'kcent', 'divcent', 'divbool', 'divnone', 'divnan', 'add', 'mul', 'mod', 'div', 'neg', 'pair', 'pairmod', 'rep', 'upto', 'opt', 'half', 'tofloat', 'nt', 'even', 'odd',
              'modeq', 'modne', 'modtruthy', 'kt', 'ks', 'kbig', 'kf', 'kmix', 'kneg', 'kmers', 'ktneg', 'divt', 'divs', 'divbig', 'divhuge', 'divf', 'divpar'}
 NUM_FUNCS = {'gt', 'lt', 'trunc', 'scale10'}
 ANY_FUNCS = {'id', 'digest', 'dgt', 'true', 'false', 'kdig', 'digpar'}
 TYPED_FUNCS = {'frompy': 'p', 't0': 't', 't1': 't', 'tsum': 't', 'len': 'l', 'lsum': 'l', 'isnone': 'o', 'ntsum': 'n'}
-INT_ACCS = {'acc_add', 'acc_addsq', 'acc_max', 'acc_pair'}
+INT_ACCS = {'acc_add', 'acc_addsq', 'acc_max', 'acc_pair', 'acc_npvec'}
 
 
 def fn_accepts(name, t):
@@ -552,6 +582,19 @@ def dump_pushed(make, rows, path, out, what):
                      at_completion=(repr(seen[0]) if seen and isinstance(seen[0], Exception) else (len(seen[0]) if seen else None)),
                      final_size=len(final))
     return snap
+
+
+NP_PARAM_POS = {'take': [1], 'lag': [1], 'pad_start': [1], 'pad_end': [1], 'batch': [1], 'roll': [1, 2]}
+
+
+def np_params(node, kind='int64'):
+    """the node with its size parameters given as numpy integers (configuration computed with numpy): comparisons
+    with them return numpy.bool_, which is not the object True"""
+    node = list(node)
+    for k in NP_PARAM_POS.get(node[0], ()):
+        if isinstance(node[k], int) and not isinstance(node[k], bool):
+            node[k] = getattr(_np, kind)(node[k])
+    return node
 
 
 def usable_prelude(prog, prelude):
